@@ -23,6 +23,7 @@ from vgi_rpc.rpc import (
     _get_auth_and_metadata,
     _log_method_error,
     _read_request,
+    _RequestFramingError,
     _truncate_error_message,
     _write_error_batch,
 )
@@ -231,7 +232,7 @@ class _UploadUrlResource:
                 ipc_method, kwargs = _read_request(_get_request_stream(req), self._app._server.ipc_validation)
                 if ipc_method != _UPLOAD_URL_METHOD:
                     raise TypeError(f"Method mismatch: expected '{_UPLOAD_URL_METHOD}', got '{ipc_method}'")
-            except (pa.ArrowInvalid, TypeError, StopIteration, RpcError, VersionError) as exc:
+            except (pa.ArrowInvalid, _RequestFramingError, TypeError, StopIteration, RpcError, VersionError) as exc:
                 raise _RpcHttpError(exc, status_code=HTTPStatus.BAD_REQUEST) from exc
             except Exception as exc:
                 # Same reasoning as the unary/stream guards: an unclassified
